@@ -16,7 +16,8 @@
 From Coq Require Import List ZArith Bool.
 From SVC Require Import Base.AMap Base.Res Base.Dec Model.Types Model.Pricing
   Model.Handlers Model.EndBlock Model.Step Proofs.Inv Proofs.StepSpecs_window
-  Proofs.ReachRun Proofs.TraceLemmas Proofs.GapOrigin Proofs.GapC08.
+  Proofs.ReachRun Proofs.TraceLemmas Proofs.GapOrigin Proofs.GapC08
+  Model.ParamStep Proofs.ParamChange Proofs.ReachPProps.
 Import ListNotations.
 Open Scope Z_scope.
 
@@ -234,3 +235,25 @@ Theorem C08_K3_records_left_refuted :
            get (rid_ctx r) (expq_h s') = None /\ get (rid_ctx r) (newq_h s') = None /\ ~ I_req s'.
 Proof. exact K3.K3_records_left_refuted. Qed.
 Print Assumptions C08_K3_records_left_refuted.
+
+(* ---- governance parameter changes inside a history (Model/ParamStep.v, Proofs/ParamChange.v,
+   Proofs/ReachPProps.v) ----
+   The state-invariant statements above, with `wf_cfg cfg -> Reach cfg s` (parameters fixed along
+   the history) replaced by `ReachP cfg s`: initial state; operations under the parameters in
+   force; changes to a well-formed parameter set that does not raise the minimum-deposit terms
+   nor lower the maximum request timeout (tax, slash fraction, arbitration and complaint periods
+   change freely).  cfg is the parameter set in force in s.  Same conclusions. *)
+
+Theorem C08_accept_param_changes :
+  forall cfg s, ReachP cfg s -> forall r q code out out_valid,
+  get r (reqs s) = Some q -> r_active q = true ->
+  exists s', handle cfg s (ORespond r (r_prov q) code out out_valid true) = Ok s'.
+Proof. exact ReachPProps.accept_P. Qed.
+Print Assumptions C08_accept_param_changes.
+
+Theorem C08_window_inv_param_changes :
+  forall cfg s, ReachP cfg s -> forall r q,
+  get r (reqs s) = Some q ->
+  height s <= r_exp q /\ rid_height r < r_exp q /\ In (r_exp q, rid_ctx r) (expq s).
+Proof. exact ReachPProps.window_inv_P. Qed.
+Print Assumptions C08_window_inv_param_changes.
